@@ -105,6 +105,7 @@ class SpecCheck:
     real = ["teaal (all of it, from TEAAL_REPO working tree)", "lark", "sympy", "networkx", "ruamel.yaml",
             "CPython hash randomisation (PYTHONHASHSEED per node)", "CPython executing the emitted text"]
 
+    unit_timeout = 120
     fresh = False          # True: every unit runs in its own pristine child of a template node
     templates = 0
 
@@ -182,7 +183,7 @@ class SpecCheck:
     def units_for(self, k, case, hseeds):
         spec, meta, inputs = case
         args = self.unit_args(spec, meta, inputs)
-        return [{"uid": "%d/%d" % (k, h), "hseed": h, "fn": self.unit_fn, "args": args, "timeout": 60}
+        return [{"uid": "%d/%d" % (k, h), "hseed": h, "fn": self.unit_fn, "args": args, "timeout": self.unit_timeout}
                 for h in hseeds]
 
     def run(self, argv):
